@@ -175,6 +175,12 @@ def search_c10(results, tier, seed, broken):
         for cid, s in r.summary.items():
             n += 1
             tag = s.get("tag", "")
+            if tag.startswith("ipp-big"):
+                # arguments of length 2^7 .. 2^10 on the real code only: honest create must verify
+                if s.get("verdict") != 0:
+                    hits.append(_hit(r, comp, streams, cid, "honest inner-product argument of length 2^%s rejected (verdict %s, factor pattern %s)" % (
+                        _tagval(s["line"], "k"), s.get("verdict"), _tagval(s["line"], "pattern"))))
+                continue
             v = int(tag.split("-v")[1]) if "-v" in tag else -1
             k = int(re.search(r"k=(\d+)", s["line"]).group(1))
             im = r.impl.get(cid) or {}
@@ -214,7 +220,7 @@ def search_c03(results, tier, seed, broken):
             continue
         for cid, s in r.summary.items():
             im, m = r.impl.get(cid) or {}, r.model.get(cid) or {}
-            if 15 not in im:
+            if 15 not in im or "nomodel=1" in s.get("line", "") or not m:
                 continue
             n += 1
             verdict = int(im[15][0])
@@ -262,6 +268,13 @@ def search_c01(results, tier, seed, broken):
         dist["sat=%s prover=%s verdict=%s" % (sat, s.get("prover"), s.get("verdict"))] += 1
         if (re.search(r"n1=(\d+) n2=(\d+)", tag) or [0])[0]:
             nontriv.add(tag + "|" + " ".join(im.get(5, []))[:60])
+        if tag.startswith("honest-large") and "nomodel=1" in s.get("line", ""):
+            # larger circuits run on the real code only; one-phase ones satisfy their constraints by construction
+            if s.get("prover") != 0:
+                hits.append(_hit(r, comp, streams, cid, "proving failed (result %s) on a larger circuit: %s" % (s.get("prover"), tag)))
+            elif "sure=1" in tag and s.get("verdict") != 0:
+                hits.append(_hit(r, comp, streams, cid, "honest proof of a satisfied larger constraint system rejected (verdict %s): %s" % (s.get("verdict"), tag)))
+            continue
         if s.get("prover") != 0:
             hits.append(_hit(r, comp, streams, cid, "proving a satisfied constraint system failed (result %s)" % s.get("prover")))
         elif sat == 1 and not mand and s.get("verdict") != 0:
@@ -274,6 +287,15 @@ def search_c02(results, tier, seed, broken):
     hits, n, nontriv, dist = [], 0, set(), Counter()
     for comp, streams, r, cid, s, im, m in _r1cs_cases(results):
         tag = s.get("tag", "")
+        if tag.startswith("manycons"):
+            n += 1
+            dist["manycons verdict=%s" % s.get("verdict")] += 1
+            nontriv.add(("manycons", s["curve"], _tagval(tag, "pair")))
+            if s.get("prover") == 0 and s.get("verdict") == 0:
+                hits.append(_hit(r, comp, streams, cid, "a witness violating constraints number %s and the next one (by +e and -e) of a %s-constraint gate-free circuit is accepted" % (_tagval(tag, "pair"), _tagval(tag, "total"))))
+            elif s.get("prover") == 99 or s.get("verdict") == 99:
+                hits.append(_hit(r, comp, streams, cid, "panic on a circuit with %s constraints" % _tagval(tag, "total")))
+            continue
         if not tag.startswith("violate"):
             continue
         n += 1
@@ -376,7 +398,10 @@ def search_c09(results, tier, seed, broken):
         nontriv.add(key)
         if (g[1][1].get(18) != i0.get(18)):
             hits.append(_hit(r, comp, streams, g[1][0], "same statement, same external randomness: proofs differ"))
-        for var, why in ((2, "different external randomness"), (3, "same external randomness but different commitment blinding factors")):
+        for var, why in ((2, "different external randomness"), (3, "same external randomness but different commitment blinding factors"),
+                         (4, "same external randomness, other commitment blinding factors with the same sum")):
+            if var not in g:
+                continue
             p, sc = comps(g[var][1])
             if not p0 or not p:
                 continue
@@ -506,6 +531,15 @@ def search_c07(results, tier, seed, broken):
             bv = int(im.get(15, ["-1"])[0])
             singles = [int(x) for x in im.get(20, [])]
             kind = _tagval(s["line"], "kind")
+            if kind == "sweep":
+                acc = int(_tagval(s["line"], "accepted") or 0)
+                dist["pair sweep k=%s accepted=%d" % (_tagval(s["line"], "k"), acc)] += 1
+                if acc > 0:
+                    hits.append(_hit(r, comp, streams, cid, "batch accepted although two members (the same proof with its final scalar shifted by +d and -d) fail individually: positions %s of a batch of %s; %d of %s position pairs accepted" % (
+                        _tagval(s["line"], "first"), _tagval(s["line"], "k"), acc, _tagval(s["line"], "pairs"))))
+                if int(_tagval(s["line"], "panics") or 0) > 0:
+                    hits.append(_hit(r, comp, streams, cid, "batch_verify panicked in the pair sweep"))
+                continue
             dist["kind=%s batch=%d all_single_ok=%s" % (kind, bv, all(x == 0 for x in singles))] += 1
             nontriv.add((kind, tuple(singles), s["curve"], len(singles)))
             if bv == 99:
@@ -655,8 +689,11 @@ def search_c12(results, tier, seed, broken):
                             hits.append(_hit(r, comp, streams, cid, "aggregated iterator panics on an in-range view: " + s["line"]))
                         elif m.get(2) is not None and a != m[2]:
                             hits.append(_hit(r, comp, streams, cid, "aggregated view is not the first n generators of the first m parties in party-major order: implementation %s specification %s; %s" % (a[:12], m[2][:12], s["line"])))
-                        if _ints(im.get(93, ["1"])) != [1]:
+                        fl = _ints(im.get(93, ["1", "1"]))
+                        if fl[:1] != [1]:
                             hits.append(_hit(r, comp, streams, cid, "size_hint is wrong or underflows along the iteration: " + s["line"]))
+                        if len(fl) > 1 and fl[1] != 1:
+                            hits.append(_hit(r, comp, streams, cid, "nth / skip / step_by / last / count on the aggregated iterator do not list the same sequence as next(): " + s["line"]))
                 elif tag == "gens-values":
                     v = im.get(91, [])
                     if len(v) >= 7:
@@ -714,7 +751,7 @@ def search_c18(results, tier, seed, broken):
                 hits.append(_fhit(r, cid, "%s: %s" % (cid, text)))
         n += len(fx["ref"])
     return hits, {"searched": n, "hits": len(hits), "distinct_nontrivial": len(nontriv), "distribution": dict(dist),
-                  "rule": "fixtures recorded once from revision b4846a6 through the public API (3 curves x 5 circuits: one multiplier, none, three, two-phase shuffle, mixed 2+3 gates padded to 8): this build must accept each recorded proof (with 8 and with 64 generators), reject it under a changed constant, changed application data, changed transcript label, shifted commitment and reordered commitments, reproduce every recorded generator digest and Pedersen base, and re-prove byte-identical proofs from the recorded RNG seed"}
+                  "rule": "fixtures recorded once from revision b4846a6 through the public API (3 curves x 6 circuits: one multiplier, none, three, two-phase shuffle, mixed 2+3 gates padded to 8, two-phase with a multiplier-free closure): this build must accept each recorded proof (with 8 and with 64 generators), reject it under a changed constant, changed application data, changed transcript label, shifted commitment and reordered commitments, reproduce every recorded generator digest and Pedersen base, and re-prove byte-identical proofs from the recorded RNG seed"}
 
 
 # ------------------------------------------------------------------ C04 / C05
@@ -740,6 +777,23 @@ def search_c04(results, tier, seed, broken):
                     hits.append({"component": comp, "streams": streams, "case": "%s:%s:%d" % (row["kind"], row["curve"], row["proof"]), "outdir": r.outdir,
                                  "what": "decoding / verifying an altered proof panics (%d of %d %s alterations on %s); first: %s" % (
                                      row["panicked"], row["total"], row["kind"], row["curve"], row["first"][:3000])})
+        if comp == "batch":
+            # altered copies of one proof inside a batch: each fails verify alone, so the batch must fail
+            for cid, s in r.summary.items():
+                im = r.impl.get(cid) or {}
+                kind = _tagval(s["line"], "kind")
+                n += 1
+                if kind == "sweep":
+                    acc = int(_tagval(s["line"], "accepted") or 0)
+                    dist["batch pair sweep accepted=%d" % acc] += 1
+                    if acc > 0:
+                        hits.append(_hit(r, comp, streams, cid, "batch_verify accepts a batch containing two altered copies of a proof (final scalar a shifted by +d / -d) at positions %s of %s; %d of %s position pairs accepted" % (
+                            _tagval(s["line"], "first"), _tagval(s["line"], "k"), acc, _tagval(s["line"], "pairs"))))
+                elif kind in ("2", "5", "8", "9", "10"):
+                    bv = int(im.get(15, ["-1"])[0])
+                    singles = [int(x) for x in im.get(20, [])]
+                    if bv == 0 and any(x != 0 for x in singles):
+                        hits.append(_hit(r, comp, streams, cid, "batch_verify accepts altered copies of a proof that verify rejects individually (kind %s, individual verdicts %s)" % (kind, singles)))
         if comp == "r1cs":
             for cid, s in r.summary.items():
                 tag = s.get("tag", "")
@@ -793,9 +847,12 @@ def search_c05(results, tier, seed, broken):
             dist["%s -> %s" % (kind, verdict)] += 1
             nontriv.add((kind, s["curve"], tag.split()[-3:][0]))
             if kind == "extra-empty-constraint":
-                continue   # the committed values satisfy the deviating statement too: decided by C03 (relations), not by C05
+                continue
+            if kind == "unused-commitment-plus-torsion" and s["curve"] != "curve25519":
+                kind = "none"   # no small-order points on the cofactor-one curves: this is the undeviated control there   # the committed values satisfy the deviating statement too: decided by C03 (relations), not by C05
             if kind == "none":
-                if verdict != 0:
+                mm = r.model.get(cid) or {}
+                if verdict != 0 and mm.get(8) == [1]:
                     hits.append(_hit(r, comp, streams, cid, "control case (verifier's statement = prover's) rejected: " + s["line"]))
             elif verdict == 0:
                 hits.append(_hit(r, comp, streams, cid, "proof accepted for a different statement / context (%s): %s" % (kind, s["line"])))
@@ -809,14 +866,14 @@ PROPS = {
     "C01": {
         "prop_files": ["Properties/C01.v"], "run_files": ["Run/R1cs.v"],
         "level": "proof",
-        "components": lambda tier: [("r1cs", ["honest", "cs"], {})],
+        "components": lambda tier: [("r1cs", ["honest", "cs", "large"], {})],
         "search": search_c01,
         "assumptions": ["field and F-module laws; oracle idealisation of Merlin; non-zero inverted challenges; non-identity mandatory points (measure-zero exceptions, rejected by design)"],
     },
     "C02": {
         "prop_files": ["Properties/C02.v"], "run_files": ["Run/R1cs.v"],
         "level": "proof",
-        "components": lambda tier: [("r1cs", ["violate", "honest"], {})],
+        "components": lambda tier: [("r1cs", ["violate", "honest", "manycons"], {})],
         "search": search_c02,
         "assumptions": ["field and F-module laws, B <> 0; oracle idealisation; the probability statement itself is not formalised (counting form proved)"],
     },
@@ -830,7 +887,7 @@ PROPS = {
     "C04": {
         "prop_files": ["Properties/C04.v"], "run_files": ["Run/R1cs.v"],
         "level": "proof",
-        "components": lambda tier: [("integrity", ["integrity"], {}), ("r1cs", ["mutate", "mutfields", "mutsmall"], {})],
+        "components": lambda tier: [("integrity", ["integrity"], {}), ("r1cs", ["mutate", "mutfields", "mutsmall"], {}), ("batch", ["batch"], {})],
         "search": search_c04,
         "assumptions": ["deterministic content only: at FIXED challenges no single changed field keeps the check at zero (non-zero coefficients), and every field but (a, b) is part of the history the challenges are derived from; that fresh oracle values on a changed history satisfy the equation only with negligible probability, and that relations between independently derived generators are infeasible to find, are the random-oracle / discrete-log assumptions and are not formalised",
                         "field and F-module laws; non-zero challenges"],
